@@ -21,6 +21,13 @@ type compiled struct {
 	panic any
 	files []*DFile // generated files (*.j5s.proto), sorted by path
 	all   []string // every file CompilePackage returned
+	// source locations of every generated file, by path: (descriptor path, leading comment) in order
+	locs map[string][]srcLoc
+}
+
+type srcLoc struct {
+	Path    []int32
+	Leading string
 }
 
 // compileReal runs the real compiler on the bundle text.
@@ -39,6 +46,14 @@ func compileReal(texts map[string]string, pkg string) (res compiled) {
 		res.all = append(res.all, f.Path())
 		if strings.HasSuffix(f.Path(), ".j5s.proto") {
 			res.files = append(res.files, dumpFile(f))
+			if res.locs == nil {
+				res.locs = map[string][]srcLoc{}
+			}
+			sl := f.SourceLocations()
+			for i := 0; i < sl.Len(); i++ {
+				l := sl.Get(i)
+				res.locs[f.Path()] = append(res.locs[f.Path()], srcLoc{Path: append([]int32{}, l.Path...), Leading: l.LeadingComments})
+			}
 		}
 	}
 	sort.Slice(res.files, func(i, j int) bool { return res.files[i].Path < res.files[j].Path })
@@ -105,18 +120,57 @@ func bundleInput(texts map[string]string, pkg string) map[string]any {
 	return map[string]any{"package": pkg, "files": texts}
 }
 
+// caseTerm renders one correspondence case; a bundle with entities names the main files of the
+// sources that declare one (J5sCorr.CCompileE).
+// locsTerm: for every source file of pkg that compiled, (main proto path, description table,
+// the locations the real compiler wrote into that file).
+func locsTerm(b *j5sgen.Bundle, pkg string, got compiled) string {
+	var rows []string
+	if got.ok {
+		for _, f := range b.Files {
+			if f.Package() != pkg {
+				continue
+			}
+			main := f.Path() + ".proto"
+			var ls []string
+			for _, l := range got.locs[main] {
+				var ps []string
+				for _, x := range l.Path {
+					ps = append(ps, fmt.Sprint(x))
+				}
+				ls = append(ls, "(["+strings.Join(ps, ";")+"], "+j5sgen.S(l.Leading)+")")
+			}
+			rows = append(rows, fmt.Sprintf("(%s, %s,\n     [%s])", j5sgen.S(main), f.DescTable(), strings.Join(ls, "; ")))
+		}
+	}
+	return "[" + strings.Join(rows, ";\n    ") + "]"
+}
+
+func caseTerm(b *j5sgen.Bundle, pkg string, ok, okall, exact bool, files []*DFile, locs string) string {
+	var ents []string
+	for _, f := range b.Files {
+		if f.HasEntity() {
+			ents = append(ents, j5sgen.S(f.Path()+".proto"))
+		}
+	}
+	if len(ents) == 0 {
+		return fmt.Sprintf("CCompileV\n   %s\n   %s %s %s %s\n   %s", b.Coq(), j5sgen.S(pkg), vh.BoolTerm(ok), vh.BoolTerm(okall), vh.BoolTerm(exact), filesCoq(files)+"\n   "+locs)
+	}
+	return fmt.Sprintf("CCompileE\n   %s\n   %s [%s] %s %s %s\n   %s", b.Coq(), j5sgen.S(pkg), strings.Join(ents, "; "), vh.BoolTerm(ok), vh.BoolTerm(okall), vh.BoolTerm(exact), filesCoq(files)+"\n   "+locs)
+}
+
 func runC02(cfg *vh.Config) error {
 	log.SetOutput(io.Discard)
 	res := vh.NewResult("C02", cfg.Seed)
-	res.Rule = "generated valid j5s bundles (1-3 packages x 1-3 files; objects/oneofs/enums top-level, explicitly nested and inline to depth 4; every scalar type; arrays/maps; refs local, cross-file, imported by alias / package / path, implicit well-known; services with path parameters; publish/reqres/upsert/event topics), printed in randomly chosen surface forms; non-trivial = distinct bundle text with at least one field"
+	res.Rule = "generated valid j5s bundles (1-3 packages x 1-3 files; objects/oneofs/enums top-level, explicitly nested and inline to depth 4; every scalar type; arrays/maps; refs local, cross-file, imported by alias / package / path, implicit well-known; services with path parameters; publish/reqres/upsert/event topics; entities: 1-3 keys - key-typed primary / shard or any scalar -, data and event fields of every type, 1-4 statuses, 1-3 events), printed in randomly chosen surface forms; non-trivial = distinct bundle text with at least one field"
 	cf := &vh.CasesFile{
-		Header: "From Coq Require Import String List NArith.\nFrom J5V.model Require Import J5sAst Desc J5sCorr.",
+		Header: "From Coq Require Import String List NArith.\nFrom J5V.model Require Import J5sAst Desc J5sEntity J5sComments J5sCorr.",
 		Type:   "c02case",
 		Check:  "c02_check",
 	}
-	n := cfg.Scale(250, 2400)
+	n := cfg.Scale(180, 2400)
 	distinct := vh.Distinct{}
-	const perShard = 40
+	const perShard = 30
 	stats := map[string]int{}
 	corpus := j5sgen.Corpus()
 	for i := 0; i < n+len(corpus); i++ {
@@ -171,7 +225,7 @@ func runC02(cfg *vh.Config) error {
 			res.Count("accepted_all_packages")
 		}
 		exact := !(i < len(corpus) && corpus[i].Outside)
-		cf.Terms = append(cf.Terms, fmt.Sprintf("CCompileV\n   %s\n   %s %s %s %s\n   %s", b.Coq(), j5sgen.S(pkg), vh.BoolTerm(got.ok), vh.BoolTerm(okall), vh.BoolTerm(exact), filesCoq(got.files)))
+		cf.Terms = append(cf.Terms, caseTerm(b, pkg, got.ok, okall, exact, got.files, locsTerm(b, pkg, got)))
 		res.Cases = append(res.Cases, vh.CaseRec{Case: i, Stream: stream, Input: in, Impl: map[string]any{"ok": got.ok, "ok_all_packages": okall, "err": got.err, "files": got.all}})
 		if len(texts) == 1 && i >= len(corpus) {
 			res.Sample(in, 3)
@@ -179,7 +233,7 @@ func runC02(cfg *vh.Config) error {
 	}
 	// ---- malformed stream: a valid bundle broken in one place must be rejected, by the compiler
 	// (with an error, not a panic) and by the model
-	nBad := cfg.Scale(60, 500)
+	nBad := cfg.Scale(45, 500)
 	for i := 0; i < nBad; i++ {
 		r := cfg.R.Fork(fmt.Sprintf("c02-bad-%d", i))
 		gcfg := j5sgen.DefaultConfig()
@@ -206,7 +260,7 @@ func runC02(cfg *vh.Config) error {
 			res.Count("malformed_accepted")
 		}
 		okall := acceptsAll(b, texts, pkg, got.ok)
-		cf.Terms = append(cf.Terms, fmt.Sprintf("CCompileV\n   %s\n   %s %s %s true\n   %s", b.Coq(), j5sgen.S(pkg), vh.BoolTerm(got.ok), vh.BoolTerm(okall), filesCoq(got.files)))
+		cf.Terms = append(cf.Terms, caseTerm(b, pkg, got.ok, okall, true, got.files, locsTerm(b, pkg, got)))
 		res.Cases = append(res.Cases, vh.CaseRec{Case: caseNo, Stream: "malformed: " + what, Input: in, Impl: map[string]any{"ok": got.ok, "ok_all_packages": okall, "err": got.err}})
 	}
 	for k, v := range stats {
